@@ -18,6 +18,7 @@ RULE = ("One evaluation = one seeded execution of two real clients + real "
         "paths, sends queued at arbitrary times. Non-trivial: at least one "
         "reconnect by a client. Distinct: distinct event-log digests among "
         "non-trivial runs.")
+RULE += (" Three of eight configurations add a planned uplink loss (server stops reading one client's connection, then the connection dies).")
 LEVEL_TEXT = ("Seeded exploration of drop points in a composed two-client run; "
               "after the last fault connectivity is restored and the run must "
               "reach: both sides have code/key/verifier/versions, every sent "
